@@ -190,6 +190,16 @@ func saveFailure(name string, raw []byte, msg string) {
 	_ = os.WriteFile(path, envelope(name, raw, msg), 0644)
 }
 
+// FuzzFail is for native fuzz targets: it saves the failing case as a replay envelope of the
+// named sub-check (the driver turns it into a VIOLATION) and fails the fuzz iteration.
+func FuzzFail(t *testing.T, propName string, c interface{}, msg string) {
+	raw, err := json.Marshal(c)
+	if err == nil {
+		saveFailure(propName, raw, msg)
+	}
+	t.Fatalf("%s", msg)
+}
+
 // Main runs every registered property with rapid. Seeds, case counts and shard come from
 // the environment (VERIF_SEED, VERIF_TIER, VERIF_SHARD, VERIF_SCALE, VERIF_ONLY).
 func Main(t *testing.T) {
